@@ -323,6 +323,8 @@ def walk_through_locals(f, node, _seen=None):
 def counting_loop(loop):
     """Header of a counting `for` loop, independent of spelling.  Returns dict(var=decl id, start=node|None, op='<'|'<='|'>'|'>='|'!=', bound=node, step=+1|-1|None) or None.
     Accepts `T i = a` / `i = a` initialisers, the condition with its operands in either order (and under `!`), and i++ / ++i / i += 1 / i = i + 1 (resp. decrements)."""
+    if loop['k'] == 'WhileStmt':
+        return _counting_while(loop)
     if loop['k'] != 'ForStmt':
         return None
     init, cond, inc = loop.role('init'), loop.role('cond'), loop.role('inc')
@@ -357,6 +359,66 @@ def counting_loop(loop):
             if any(x['k'] == 'DeclRefExpr' and x.get('d') == l['d'] for x in r.walk()):
                 continue
             return {'var': l['d'], 'start': cands.get(l['d']), 'op': op, 'bound': r, 'step': step if sv == l['d'] else None}
+    return None
+
+
+def _unit_step(i):
+    """(decl id, +1|-1) if the expression statement i changes a variable by one, else None"""
+    i = strip_casts(i)
+    if i['k'] == 'UnaryOperator' and i.get('op') in ('post++', 'pre++', 'post--', 'pre--'):
+        return strip_casts(i['ch'][0]).get('d'), (1 if '++' in i['op'] else -1)
+    if i['k'] == 'CompoundAssignOperator' and i.get('op') in ('+=', '-=') and strip_casts(i['ch'][1]).get('v') == 1:
+        return strip_casts(i['ch'][0]).get('d'), (1 if i['op'] == '+=' else -1)
+    if i['k'] == 'BinaryOperator' and i.get('op') == '=' and strip_casts(i['ch'][1])['k'] == 'BinaryOperator' and strip_casts(i['ch'][1]).get('op') in ('+', '-'):
+        r = strip_casts(i['ch'][1])
+        a, b = strip_casts(r['ch'][0]), strip_casts(r['ch'][1])
+        if a.get('d') is not None and a.get('d') == strip_casts(i['ch'][0]).get('d') and b.get('v') == 1:
+            return a.get('d'), (1 if r['op'] == '+' else -1)
+        if r['op'] == '+' and b.get('d') is not None and b.get('d') == strip_casts(i['ch'][0]).get('d') and a.get('v') == 1:
+            return b.get('d'), 1
+    return None
+
+
+def _counting_while(loop):
+    """`T i = a; while (i OP bound) { …; i++; }` read as the for loop it is: the last statement of the body is the only change of i inside the loop, no `continue` skips it, and the
+    declaration of i (the only other definition of i in the function) gives the start value"""
+    cond, body = loop.role('cond'), loop.role('body')
+    func = getattr(loop, 'func', None)
+    if cond is None or body is None or func is None:
+        return None
+    stmts = body['ch'] if body['k'] == 'CompoundStmt' else [body]
+    if not stmts:
+        return None
+    st = _unit_step(stmts[-1])
+    if st is None or st[0] is None:
+        return None
+    var, step = st
+    if any(x['k'] == 'ContinueStmt' for s_ in stmts for x in s_.walk()):
+        return None
+    def writes(root, skip=None):
+        out = []
+        for x in root.walk():
+            if x is skip:
+                continue
+            if x['k'] == 'UnaryOperator' and x.get('op') in ('post++', 'pre++', 'post--', 'pre--', '&') and strip_casts(x['ch'][0]).get('d') == var:
+                out.append(x)
+            elif x['k'] in ('BinaryOperator', 'CompoundAssignOperator') and (x.get('op') == '=' or x['k'] == 'CompoundAssignOperator') and strip_casts(x['ch'][0]).get('d') == var:
+                out.append(x)
+        return out
+    last = strip_casts(stmts[-1])
+    if [w for w in writes(body) if w is not last and w['i'] != last['i']]:
+        return None
+    decl = [v for v in func.walk() if v['k'] == 'VarDecl' and v.get('d') == var]
+    if len(decl) != 1 or not decl[0]['ch']:
+        return None
+    outside = [w for w in writes(func) if not any(a is loop or a['i'] == loop['i'] for a in w.ancestors())]
+    if outside:
+        return None
+    for (l, op, r) in rel_forms(cond, True):
+        if l['k'] == 'DeclRefExpr' and l.get('d') == var and op in ('<', '<=', '>', '>=', '!='):
+            if any(x['k'] == 'DeclRefExpr' and x.get('d') == var for x in r.walk()):
+                continue
+            return {'var': var, 'start': decl[0]['ch'][0], 'op': op, 'bound': r, 'step': step}
     return None
 
 
